@@ -79,22 +79,33 @@ def h_registry_step(S, B):
     del LOG[:]
     daemon = rig.make_daemon()
     dobj = daemon.objectsById[core.DAEMON_NAME]
-    O1, O2, O3 = KEmpty("O1"), KSet("O2"), K("O3")
-    pool = {"O1": O1, "O2": O2, "O3": O3, "KC": KC}
-    st1 = S.choice("O1.state", ["unregistered", "strong", "weak"])
+    O1, O2, O3, O4 = KEmpty("O1"), KSet("O2"), K("O3"), KEmpty("O4")
+    pool = {"O1": O1, "O2": O2, "O3": O3, "O4": O4, "KC": KC}
+    # O1 may also have been moved: registered as "a" and later, forced, as "c" as well (it then carries the id "c")
+    st1 = S.choice("O1.state", ["unregistered", "strong", "weak", "strong-under-two-ids"])
     st2 = S.choice("O2.state", ["unregistered", "strong"])
+    st4 = S.choice("O4.state", ["unregistered", "strong"])       # a second object of O1's class
     reference = [(core.DAEMON_NAME, dobj)]
     if st1 != "unregistered":
         daemon.register(O1, "a", weak=(st1 == "weak"))
         reference.append(("a", O1))
+        if st1 == "strong-under-two-ids":
+            daemon.register(O1, "c", force=True)
+            reference.append(("c", O1))
     if st2 != "unregistered":
         daemon.register(O2, "b")
         reference.append(("b", O2))
+    if st4 != "unregistered":
+        daemon.register(O4, "d")
+        reference.append(("d", O4))
     daemon.objectsById = symdict(S, daemon.objectsById)
     op = S.choice("op", ["register", "unregister-object", "unregister-id", "collect-O1", "none"])
     exc = None
     result = None
     S.cover("op:" + op)
+    ALIAS_CHECKS = ["reported-ids-count", "id-reaches-its-object", "unknown-id-is-unknown", "registered-id-is-reported",
+                    "registered-object-travels-as-proxy", "registered-object-arrives-as-proxy-through-the-serializer",
+                    "proxy-names-an-id-of-the-object", "arrived-proxy-names-an-id-of-the-object", "unregistered-object-travels-by-value"]
     if op == "register":
         tname = S.choice("target", ["O1", "O2", "O3", "KC"])
         target = pool[tname]
@@ -106,6 +117,11 @@ def h_registry_step(S, B):
             result = daemon.register(target, oid, force, weak)
         except Exception as x:
             exc = x
+        if st1 == "strong-under-two-ids" and oid is not None:
+            # taking over (forced) the id that the twice-registered object carries removes its marks although it is still
+            # registered under its other id
+            S.known("C16-object-registered-under-several-ids-is-only-known-by-the-id-it-carries",
+                    And(force, eq(oid, "c"), tname != "O1"), checks=ALIAS_CHECKS)
         already = any(v is target for k, v in reference)
         id_taken = False if oid is None else Or(*[eq(oid, k) for k, v in reference])
         id_of_other = False if oid is None else Or(*[eq(oid, k) for k, v in reference if v is not target and k != core.DAEMON_NAME])
@@ -136,13 +152,15 @@ def h_registry_step(S, B):
             reference = newref
             reference.append((new_id, target))
     elif op == "unregister-object":
-        tname = S.choice("target", ["O1", "O2", "O3", "DaemonObject"])
+        tname = S.choice("target", ["O1", "O2", "O3", "O4", "DaemonObject"])
         target = dobj if tname == "DaemonObject" else pool[tname]
         try:
             daemon.unregister(target)
         except Exception as x:
             exc = x
         was = [k for k, v in reference if v is target]
+        S.known("C16-object-registered-under-several-ids-is-only-known-by-the-id-it-carries",
+                And(st1 == "strong-under-two-ids", tname == "O1"), checks=ALIAS_CHECKS)
         if tname == "DaemonObject":
             S.check("daemon-object-cannot-be-unregistered", exc is None)
         elif not was:
@@ -169,7 +187,11 @@ def h_registry_step(S, B):
                 raise RuntimeError("harness: undecided id comparison")
         removed = [v for k, v in reference if (k, v) not in keep]
         reference = keep
-        S.known("C16-unregister-by-id-leaves-the-pyro-marks-on-the-object", len(removed) > 0, checks=["unregistered-object-travels-by-value"])
+        # (an object that is still registered under another id keeps carrying the id that was just removed: same root cause)
+        S.known("C16-unregister-by-id-leaves-the-pyro-marks-on-the-object", len(removed) > 0,
+                checks=["unregistered-object-travels-by-value", "registered-object-travels-as-proxy",
+                        "registered-object-arrives-as-proxy-through-the-serializer", "proxy-names-an-id-of-the-object",
+                        "arrived-proxy-names-an-id-of-the-object"])
     elif op == "collect-O1":
         O1 = None
         pool["O1"] = None
@@ -191,7 +213,7 @@ def h_registry_step(S, B):
         S.check("id-reaches-its-object", Or(*[c for c, v in expect if v is found]))
     S.check("daemon-object-still-reachable", server._unpack_weakref(daemon.objectsById.get(core.DAEMON_NAME)) is dobj)
     # ---- oracle: a pool object returned from a method: proxy iff registered, else by value ----
-    for name in ("O1", "O2", "O3"):
+    for name in ("O1", "O2", "O3", "O4"):
         obj = pool[name]
         if obj is None:
             continue
